@@ -18,6 +18,7 @@ import Driver.Cache
 import Driver.ReqResp
 import Driver.Emitter
 import Driver.GenStatus
+import Driver.Lifecycle
 
 def main (args : List String) : IO UInt32 := do
   match args with
@@ -42,6 +43,7 @@ def main (args : List String) : IO UInt32 := do
   | ["C20CACHE"] => Driver.Cache.main; return 0
   | ["EMITTER"] => Driver.Emitter.main; return 0
   | ["C15STATUS"] => Driver.GenStatus.main; return 0
+  | ["C18LIFE"] => Driver.Lifecycle.main; return 0
   | ["C17"] => Driver.ReqResp.main; return 0
   | ["C01"] => Driver.BFT.main; return 0
   | _ => IO.eprintln "usage: ldriver <property-id>"; return 2
